@@ -13,11 +13,10 @@ plus scripted (non-conformant, adversarial) mail lists for the master alone and
 adversarial request streams for the server alone.
 
 The property oracle is the property text: object bytes equal, the call returns,
-segment toggles alternate from 0, every message fits its mailbox.  The modes
-the unchanged tree gets wrong are *classes decided on the input* (`classify`);
-a failing case is attributed to its class only if the implementation's output
-equals the model's output on it (the recorded defect behaviour), otherwise it
-is reported as a new violation.
+segment toggles alternate from 0, every message fits its mailbox.  No known
+defect class is left (`classify` is constant): the four classes of
+findings/C16.json were repaired in /repo (fix: 7fef356, a0eb33f); their former
+witnesses are run as ordinary cases on every check.
 """
 import asyncio
 import collections
@@ -31,12 +30,12 @@ LEAN_MODULES = ["Ebv.Props.C16"]
 MODEL_MODULES = ["Ebv.Model.Sdo", "Ebv.Model.SdoServer", "Ebv.Model.SdoSystem"]
 DRIVER = "Drivers/C16.lean"
 THEOREMS = [
-    "Ebv.C16.write_expedited_exact", "Ebv.C16.read_expedited_exact", "Ebv.C16.read_normal_exact",
-    "Ebv.C16.fits_mailbox", "Ebv.C16.read_requests_fit_and_toggle", "Ebv.C16.server_responses_fit",
-    "Ebv.C16.read_segmented_refuted", "Ebv.C16.read_segmented_partial",
-    "Ebv.C16.write_normal_refuted", "Ebv.C16.write_normal_partial",
-    "Ebv.C16.write_complete_refuted",
-    "Ebv.C16.write_zero_expedited_refuted", "Ebv.C16.write_expedited_interleaved_refuted",
+    "Ebv.C16.read_expedited_exact", "Ebv.C16.read_normal_exact", "Ebv.C16.read_segmented_exact",
+    "Ebv.C16.write_expedited_exact", "Ebv.C16.write_normal_exact", "Ebv.C16.write_complete_exact",
+    "Ebv.C16.write_zero_exact",
+    "Ebv.C16.fits_mailbox", "Ebv.C16.toggle_alternates",
+    "Ebv.C16.read_requests_fit_and_toggle", "Ebv.C16.write_requests_fit_and_toggle", "Ebv.C16.server_responses_fit",
+    "Ebv.C16.read_long_run", "Ebv.C16.write_run",
 ]
 TRUSTED = [
     "hand-written model Ebv.Sdo of Terminal.sdo_read/sdo_write/mbx_send/mbx_recv, tied by exact trace correspondence",
@@ -59,16 +58,18 @@ RULE = ("composed cases: kind in {read,write} x (out,in) mailbox sizes from {24,
         "server cases: the request streams of the composed cases + random request streams; non-trivial = at least one "
         "message sent and a response consumed")
 LEVEL_TEXT = (
-    "Lean 4 proof over a hand-written model of sdo_read/sdo_write composed with a conformant ETG.1000.6 SDO server model: "
-    "expedited download (1..4 bytes), expedited upload and single-frame normal upload are exact for all contents, lengths, "
-    "mailbox sizes, counters and schedules (delays, unrelated mail, drain); all upload requests fit and toggle 0,1,0,.. for "
-    "every mail script; every server response fits. Segmented upload, every non-expedited download, the zero-length expedited "
-    "download and an expedited download with unrelated mail interleaved are refuted on concrete witnesses (decide) and "
-    "reported as known findings. Tied to /repo by exact message-trace correspondence of the real coroutines.")
+    "Lean 4 proof over a hand-written model of sdo_read/sdo_write (the code after fix: 7fef356 and a0eb33f) composed with a "
+    "conformant ETG.1000.6 SDO server model: uploads (expedited, one frame, any number of segments incl. a short last one) return "
+    "the object byte for byte, downloads (expedited 1..4 bytes, normal, segmented, complete access, the empty value) leave exactly "
+    "the value in the object and return - for all contents, all lengths below 2^32, all mailbox sizes 16..65535, indices, counters "
+    "and schedules (delays, unrelated mail before every response, 0x805 drain), by induction over the segments that are left; "
+    "for every mail script (conformant server or not) all messages fit the receive mailbox and segment toggles alternate from 0; "
+    "every server mail fits the send mailbox. Tied to /repo by exact message-trace correspondence of the real coroutines.")
 LEVEL_NOTE = (
     "trusted: Lean kernel + propext/Classical.choice/Quot.sound; hand transcription Ebv.Sdo validated (not verified) by "
-    "differential traces; the conformant server is our reading of ETG.1000.6; ESC behaviour for writes to a full mailbox "
-    "is not modelled")
+    "differential traces; the conformant server is our reading of ETG.1000.6 (expedited answer for 1..4 bytes, normal with complete "
+    "size otherwise); ESC behaviour for writes to a full mailbox is not modelled; the four former defect classes (findings/C16.json, "
+    "fixed) are ordinary cases now and their witnesses are re-run on every check")
 TECHNIQUE = "Lean 4 symbolic evaluation/induction over composed master||server model + differential trace correspondence"
 DESIGN_REF = "§4 C16"
 
